@@ -356,9 +356,13 @@ class IndexedGrammar:
             When trying to intersection with something else than a regular
             expression or a finite automaton
         """
-        if isinstance(other, pyformlang.regular_expression.Regex):
+        # Imported here: these packages import this one, and the attributes
+        # of the pyformlang package only exist once they have been imported
+        # pylint: disable=import-outside-toplevel
+        from pyformlang import regular_expression, finite_automaton
+        if isinstance(other, regular_expression.Regex):
             other = other.to_epsilon_nfa()
-        if isinstance(other, pyformlang.finite_automaton.FiniteAutomaton):
+        if isinstance(other, finite_automaton.FiniteAutomaton):
             fst = other.to_fst()
             return fst.intersection(self)
         raise NotImplementedError
